@@ -273,12 +273,18 @@ class Norm:
             if base[0] == "sub" or base[0] in ("arg",):
                 return ("elem", B, add(lo, i))
             return (k, base) + tuple(t[2:])
-        if k == "from_bytes" and t[1] == "from_le_bytes" and t[3] == "u32":
+        if k == "from_bytes" and t[1] in ("from_le_bytes", "from_ne_bytes") and t[3] == "u32":
+            # native endianness is little endian on the target the layouts are for (facts: target.endian)
             src = self.norm(t[2])
             r = self.le32(src)
             if r is not None:
                 return r
             return ("from_bytes", t[1], src, t[3])
+        if k == "sub" and len(t) == 4:
+            # a sub-slice of a sub-slice (e.g. the halves of split_at) is a sub-slice of the base
+            X = self.unref(self.norm(t[1]))
+            B, lo, hi = as_sub(X)
+            return mk_sub(B, add(lo, self.norm(t[2])), add(lo, self.norm(t[3])))
         if k == "unsize":
             x = self.norm(t[1])
             return ("unsize", x) + tuple(t[2:])
@@ -341,7 +347,7 @@ class Norm:
     def le32(self, src):
         """src: the [u8; 4] value handed to from_le_bytes"""
         # <[u8; 4]>::try_from(slice).unwrap()
-        if src[0] == "unwrap" and src[1][0] == "call" and "TryFrom<&[u8]> for [u8; 4]" in str(src[1][1]) and len(src[1][2]) == 1:
+        if src[0] == "unwrap" and src[1][0] == "call" and ("TryFrom<&[u8]> for [u8; 4]" in str(src[1][1]) or "TryFrom<&[T]> for [T; N]" in str(src[1][1])) and len(src[1][2]) == 1:
             s_ = self.unref(src[1][2][0])
             if s_[0] == "fld" and s_[2] == 0 and s_[1][0] == "dc":
                 return None
